@@ -737,6 +737,217 @@ fn log_trickle(out: &mut Out, r: TrkResult, idx: u64) {
     out.case(&line, &format!("{} {} {}", idx, r.got.show(), fin), true);
 }
 
+
+// ------------------------------------------------------------------------------------------
+// `multi`: several waiters of mixed kinds on one control (notify_all must reach all of them)
+// ------------------------------------------------------------------------------------------
+struct MultiCase { window: u64, kinds: Vec<Kind>, setup: Vec<Op>, ops: Vec<Op> }
+
+fn gen_multi(rng: &mut Rng) -> MultiCase {
+    let w = world(rng);
+    let n = rng.range(2, 4) as usize;
+    let mut kinds = Vec::new();
+    for _ in 0..n {
+        if rng.chance(2, 5) { kinds.push(Kind::Reconnect); } else { kinds.push(Kind::Credit(w.len + rng.below(4) * w.scale)); }
+    }
+    let mut reason = 0u64;
+    let nops = rng.range(1, 3) as usize;
+    let reconnect = kinds.iter().any(|k| *k == Kind::Reconnect);
+    let mut ops: Vec<Op> = (0..nops).map(|_| gen_op(rng, &w, reconnect, false, &mut reason)).collect();
+    if rng.chance(2, 3) {
+        let i = rng.below(nops as u64) as usize;
+        ops[i] = match rng.below(4) { 0 => { reason += 1; Op::Cancel(reason) } 1 => Op::Res(w.file, w.sent), 2 => Op::Adv(other_file(rng, w.file)), _ => Op::Ack(w.file, w.sent) };
+    }
+    MultiCase { window: w.window, kinds, setup: w.setup, ops }
+}
+
+fn show_kinds(ks: &[Kind]) -> String {
+    ks.iter().map(|k| match k { Kind::Credit(l) => format!("c{}", l), Kind::Reconnect => "r".to_string() }).collect::<Vec<_>>().join(",")
+}
+
+fn parse_multi(line: &str) -> Option<MultiCase> {
+    let w = words(line);
+    if w.len() < 6 || w[0] != "multi" { return None; }
+    let window = w[2].parse().ok()?;
+    let kinds = w[3].strip_prefix("kinds=")?.split(',').map(|k| if k == "r" { Some(Kind::Reconnect) } else { k.strip_prefix('c')?.parse().ok().map(Kind::Credit) }).collect::<Option<Vec<_>>>()?;
+    let setup = parse_ops(w[4].strip_prefix("setup=")?)?;
+    let ops = parse_ops(w[5].strip_prefix("thr=")?)?;
+    Some(MultiCase { window, kinds, setup, ops })
+}
+
+fn run_multi(out: &mut Out, c: &MultiCase, idx: u64) {
+    let line = format!("multi {} {} kinds={} setup={} thr={}", idx, c.window, show_kinds(&c.kinds), show_ops(&c.setup), show_ops(&c.ops));
+    out.begin(&line);
+    let tc = TransferControl::new(c.window);
+    for op in &c.setup { apply(&tc, op); }
+    let n = c.kinds.len();
+    let (tx, rx) = mpsc::channel::<(usize, Got)>();
+    let tids: Vec<Arc<AtomicI64>> = (0..n).map(|_| Arc::new(AtomicI64::new(0))).collect();
+    let mut handles = Vec::new();
+    for (i, k) in c.kinds.iter().enumerate() {
+        let (tc, k, tx, tid) = (tc.clone(), k.clone(), tx.clone(), tids[i].clone());
+        handles.push(std::thread::spawn(move || {
+            tid.store(gettid(), Ordering::SeqCst);
+            let r = catch(|| match k {
+                Kind::Credit(len) => match tc.wait_for_credit(len, Instant::now() + FAR) {
+                    Ok(()) => Got::Ok,
+                    Err(CreditError::Cancelled(r)) => Got::Cancelled(r),
+                    Err(CreditError::Timeout) => Got::Timeout,
+                },
+                Kind::Reconnect => match tc.wait_for_reconnect(FAR) {
+                    ReconnectOutcome::ResumeReady(p) => Got::Resume(p.resume_at_offset),
+                    ReconnectOutcome::Cancelled(r) => Got::Cancelled(r),
+                    ReconnectOutcome::Timeout => Got::Timeout,
+                },
+            });
+            let _ = tx.send((i, r.unwrap_or(Got::Panic)));
+        }));
+    }
+    // all asleep (best effort, as in `wake`)
+    let limit = Instant::now() + Duration::from_secs(2);
+    loop {
+        if tids.iter().all(|t| { let v = t.load(Ordering::SeqCst); v != 0 && thread_state(v) == 'S' }) { out.count("multi.all_seen_asleep"); break; }
+        if Instant::now() > limit { break; }
+        std::thread::yield_now();
+    }
+    let results: Vec<OpRes> = c.ops.iter().map(|op| catch(|| apply(&tc, op)).unwrap_or(OpRes::ResumeErr)).collect();
+    let (sent, acked) = catch(|| tc.offsets()).unwrap_or((0, 0));
+    let cancelled = catch(|| tc.is_cancelled()).unwrap_or(true);
+    let mut pending = None;
+    for (op, r) in c.ops.iter().zip(&results) {
+        match (op, r) { (Op::Adv(_), _) => pending = None, (Op::Res(..), OpRes::ResumeOk(o)) => pending = Some(*o), _ => {} }
+    }
+    let must: Vec<usize> = (0..n).filter(|&i| match &c.kinds[i] {
+        Kind::Credit(len) => { let inf = sent.saturating_sub(acked); cancelled || inf == 0 || inf.saturating_add(*len) <= c.window }
+        Kind::Reconnect => cancelled,
+    }).collect();
+    let n_reconnect = c.kinds.iter().filter(|k| **k == Kind::Reconnect).count();
+    let need_one_resume = !cancelled && pending.is_some() && n_reconnect > 0;
+    let mut got: Vec<Option<Got>> = vec![None; n];
+    let satisfied = |got: &Vec<Option<Got>>| must.iter().all(|&i| got[i].is_some())
+        && (!need_one_resume || (0..n).any(|i| c.kinds[i] == Kind::Reconnect && got[i].is_some()));
+    let wd = Instant::now() + WATCHDOG;
+    while !satisfied(&got) {
+        match rx.recv_timeout(wd.saturating_duration_since(Instant::now())) { Ok((i, g)) => got[i] = Some(g), Err(_) => break }
+    }
+    // a short look at who else came back (transient conditions)
+    let grace = Instant::now() + Duration::from_micros(300);
+    while Instant::now() < grace { if let Ok((i, g)) = rx.try_recv() { got[i] = Some(g); } else { std::thread::yield_now(); } }
+    let ops_v = vec![line.clone()];
+    let fin = format!("{}:{}:{}", sent, acked, if cancelled { 1 } else { 0 });
+    if !satisfied(&got) {
+        let asleep: Vec<String> = must.iter().filter(|&&i| got[i].is_none()).map(|i| i.to_string()).collect();
+        out.oracle_fail("wake.multi.missed_wakeup", &format!(
+            "{} waiters ({}); after all ops (fin {}) the condition holds for waiter(s) [{}]{} but they are still asleep after 10 s",
+            n, show_kinds(&c.kinds), fin, asleep.join(","), if need_one_resume { " / a resume is staged and no reconnect waiter took it" } else { "" }), &ops_v);
+    }
+    let before_cleanup = got.clone();
+    // release the rest: one cancel must wake every remaining waiter
+    if got.iter().any(|g| g.is_none()) {
+        let _ = catch(|| tc.cancel("cleanup"));
+        let wd = Instant::now() + WATCHDOG;
+        while got.iter().any(|g| g.is_none()) {
+            match rx.recv_timeout(wd.saturating_duration_since(Instant::now())) { Ok((i, g)) => got[i] = Some(g), Err(_) => break }
+        }
+        if got.iter().any(|g| g.is_none()) {
+            out.oracle_fail("wake.multi.missed_wakeup.cancel", &format!("{} of {} parked waiters did not return within 10 s of one cancel()", got.iter().filter(|g| g.is_none()).count(), n), &ops_v);
+        }
+    }
+    if got.iter().all(|g| g.is_some()) { for h in handles { let _ = h.join(); } }
+    // values
+    let resumes = before_cleanup.iter().flatten().filter(|g| matches!(g, Got::Resume(_))).count();
+    let accepted = results.iter().filter(|r| matches!(r, OpRes::ResumeOk(_))).count();
+    if resumes > accepted {
+        out.oracle_fail("wake.multi.resume_duplicated", &format!("{} waiters returned ResumeReady for {} accepted resume(s)", resumes, accepted), &ops_v);
+    }
+    for g in before_cleanup.iter().flatten() {
+        match g {
+            Got::Timeout => out.oracle_fail("wake.multi.timeout.early", "Timeout returned with a deadline one hour away", &ops_v),
+            Got::Panic => out.oracle_fail("wake.multi.panic", "a wait panicked", &ops_v),
+            Got::Cancelled(r) if !c.ops.iter().any(|o| matches!(o, Op::Cancel(x) if format!("r{}", x) == *r)) =>
+                out.oracle_fail("wake.multi.value.cancel_reason", &format!("returned Cancelled({}) but no cancel with that reason ran", r), &ops_v),
+            Got::Resume(o) if !results.iter().any(|r| *r == OpRes::ResumeOk(*o)) =>
+                out.oracle_fail("wake.multi.value.resume", &format!("returned ResumeReady({}) but no accepted resume at that offset", o), &ops_v),
+            _ => {}
+        }
+    }
+    out.count(&format!("multi.waiters.{}", n));
+    out.add("multi.returned_before_cleanup", before_cleanup.iter().flatten().count() as u64);
+    let obs = format!("{} must={} cancelled={} pending={} fin={}", idx,
+        if must.is_empty() { "-".to_string() } else { must.iter().map(|i| i.to_string()).collect::<Vec<_>>().join(",") },
+        if cancelled { 1 } else { 0 }, if pending.is_some() { 1 } else { 0 }, fin);
+    out.case(&line, &obs, !must.is_empty() || need_one_resume);
+}
+
+// ------------------------------------------------------------------------------------------
+// `wd`: the registry's idle watchdog as the signalling source (its cancel must wake parked producers)
+// ------------------------------------------------------------------------------------------
+struct WdResult { lines: Vec<(String, String)>, fails: Vec<(String, String, String)> }
+
+fn run_watchdog_case(seed: u64) -> WdResult {
+    let mut rng = Rng::new(seed);
+    let reg: Arc<repe::TransferRegistry<u64>> = Arc::new(repe::TransferRegistry::new());
+    let mut waiters = Vec::new();
+    let (tx, rx) = mpsc::channel::<(usize, Got)>();
+    let mut heads = Vec::new();
+    for i in 0..2usize {
+        let window = rng.range(1, 8);
+        let len = window + rng.range(1, 4);
+        let tc = TransferControl::new(window);
+        let setup = vec![Op::Push(0, 10), Op::Sent(10)];
+        for op in &setup { apply(&tc, op); }
+        reg.register(i as u64, tc.clone());
+        let kind = if i == 0 { Kind::Credit(len) } else { Kind::Reconnect };
+        let (k, l) = match &kind { Kind::Credit(l) => ("credit", *l), Kind::Reconnect => ("reconnect", 0) };
+        heads.push(format!("{} {} {} setup={} thr=cancel:0 order=-", k, l, window, show_ops(&setup)));
+        let tx = tx.clone();
+        waiters.push(std::thread::spawn(move || {
+            let r = catch(|| match kind {
+                Kind::Credit(len) => match tc.wait_for_credit(len, Instant::now() + FAR) {
+                    Ok(()) => Got::Ok,
+                    Err(CreditError::Cancelled(r)) => Got::Cancelled(r),
+                    Err(CreditError::Timeout) => Got::Timeout,
+                },
+                Kind::Reconnect => match tc.wait_for_reconnect(FAR) {
+                    ReconnectOutcome::ResumeReady(p) => Got::Resume(p.resume_at_offset),
+                    ReconnectOutcome::Cancelled(r) => Got::Cancelled(r),
+                    ReconnectOutcome::Timeout => Got::Timeout,
+                },
+            });
+            let _ = tx.send((i, r.unwrap_or(Got::Panic)));
+        }));
+    }
+    // idle timeout 200 ms; the watchdog ticks every second (its lower clamp): the cancel comes after ~1-2 s
+    repe::spawn_watchdog(reg.clone(), Duration::from_millis(200));
+    let mut got: Vec<Option<Got>> = vec![None, None];
+    let wd = Instant::now() + Duration::from_secs(5) + WATCHDOG;
+    while got.iter().any(|g| g.is_none()) {
+        match rx.recv_timeout(wd.saturating_duration_since(Instant::now())) { Ok((i, g)) => got[i] = Some(g), Err(_) => break }
+    }
+    let mut res = WdResult { lines: vec![], fails: vec![] };
+    for i in 0..2 {
+        let tc = reg.get(i as u64).unwrap();
+        let (s, a) = tc.offsets();
+        let fam = if i == 0 { "wake.credit" } else { "wake.reconnect" };
+        let g = got[i].clone().unwrap_or(Got::Parked);
+        let shown = match &g { Got::Cancelled(r) if r == "transfer idle" => "cancelled:0".to_string(), o => o.show() };
+        let fin = format!("{}:{}:{}", s, a, if tc.is_cancelled() { 1 } else { 0 });
+        let line = format!("wake IDX {} got={} fin={}", heads[i], shown, fin);
+        match &g {
+            Got::Cancelled(r) if r == "transfer idle" => {}
+            Got::Parked => {
+                let why = if tc.is_cancelled() { "the idle watchdog cancelled the transfer, the parked producer is still asleep 10 s later" } else { "the idle watchdog never cancelled an idle transfer (15 s)" };
+                res.fails.push((format!("{}.missed_wakeup.watchdog", fam), why.to_string(), line.clone()));
+                let _ = catch(|| tc.cancel("cleanup"));
+            }
+            o => res.fails.push((format!("{}.value.watchdog", fam), format!("expected Cancelled(transfer idle), wait returned {}", o.show()), line.clone())),
+        }
+        res.lines.push((line, format!("IDX {} {}", shown, fin)));
+    }
+    drop(reg);
+    res
+}
+
 // ------------------------------------------------------------------------------------------
 // `race`: many fast rounds, waiter and signaller released together, start offset swept
 // ------------------------------------------------------------------------------------------
@@ -932,10 +1143,18 @@ fn main() {
     let mut out = Out::new(&args.out);
     out.flush_each = true;
     let mut rng = Rng::new(args.seed);
-    out.rule = "one real thread in wait_for_credit/wait_for_reconnect (deadline 1 h) on a TransferControl whose window is full; the harness waits until /proc shows the waiter asleep (70%) or races its entry (30%); then 1-3 ops (ack: exact/insufficient/capped/stale/foreign, cancel, advance, resume: covered/uncovered/foreign, sent) from 1-3 threads with random yields/spins, signallers serialised by a harness lock (linearisation recorded) or free; values scaled by 1..2^40; 3/8 of the worlds sit on a boundary of the credit rule (window 0, chunk_len 0, chunk_len = window, oversized chunk) and enabling acks land in-flight exactly on the grant boundary or on 0. Oracles: condition true in the real final state => waiter returns within 10 s; never Timeout; returned value matches a state that occurred. `tmo` cases: 1-31 ms deadline, 0-3 ops that cannot satisfy the condition (many of them notify), spread over the wait, must return Timeout, not before the deadline. `imm` cases: deadline already passed at entry and condition already true: the matching value must be returned, not Timeout. `race` rounds: waiter and signaller released together from a spin barrier, start offset swept (signaller 0-200 spins later / waiter 0-64 spins later / a non-enabling wake-up then the enabling one 0-4000 spins apart), last op makes the condition true, 5 s watchdog. `trk` cases: 300-400 ms deadline, a non-enabling ack every ~deadline/4, must return Timeout no later than deadline + 3 s. Non-trivial = the final state obliges the waiter to return, or a tmo case; distinct by op line (incl. observed order/outcome)".into();
+    out.rule = "one real thread in wait_for_credit/wait_for_reconnect (deadline 1 h) on a TransferControl whose window is full; the harness waits until /proc shows the waiter asleep (70%) or races its entry (30%); then 1-3 ops (ack: exact/insufficient/capped/stale/foreign, cancel, advance, resume: covered/uncovered/foreign, sent) from 1-3 threads with random yields/spins, signallers serialised by a harness lock (linearisation recorded) or free; values scaled by 1..2^40; 3/8 of the worlds sit on a boundary of the credit rule (window 0, chunk_len 0, chunk_len = window, oversized chunk) and enabling acks land in-flight exactly on the grant boundary or on 0. Oracles: condition true in the real final state => waiter returns within 10 s; never Timeout; returned value matches a state that occurred. `tmo` cases: 1-31 ms deadline, 0-3 ops that cannot satisfy the condition (many of them notify), spread over the wait, must return Timeout, not before the deadline. `imm` cases: deadline already passed at entry and condition already true: the matching value must be returned, not Timeout. `race` rounds: waiter and signaller released together from a spin barrier, start offset swept (signaller 0-200 spins later / waiter 0-64 spins later / a non-enabling wake-up then the enabling one 0-4000 spins apart), last op makes the condition true, 5 s watchdog. `multi` cases: 2-4 waiters of mixed kinds (credit with different chunk lengths, reconnect) parked on one control, 1-3 ops: every waiter whose condition holds in the final state must return, a staged resume must be taken by exactly one reconnect waiter, one cancel releases all the rest. `wd`: the registry's idle watchdog (200 ms idle timeout) cancels two idle transfers whose producers are parked: both must return Cancelled(transfer idle). `trk` cases: 300-400 ms deadline, a non-enabling ack every ~deadline/4, must return Timeout no later than deadline + 3 s. Non-trivial = the final state obliges the waiter to return, or a tmo case; distinct by op line (incl. observed order/outcome)".into();
     let mut idx = 0u64;
     if let Some(lines) = args.replay_ops() {
         for l in lines {
+            if let Some(mc) = parse_multi(&l) {
+                for _ in 0..50 {
+                    if out.oracle_failures >= MAX_FAILURES { break; }
+                    idx += 1;
+                    run_multi(&mut out, &mc, idx);
+                }
+                continue;
+            }
             if let Some(c) = Case::parse(&l) {
                 if l.starts_with("trk ") {
                     for _ in 0..2 {
@@ -965,6 +1184,7 @@ fn main() {
             let seed = rng.next();
             std::thread::spawn(move || run_trickle(kind, window, setup, d_ms, seed))
         }).collect();
+        let wdog = { let seed = rng.next(); std::thread::spawn(move || run_watchdog_case(seed)) };
         // entry races
         let (n_race, race_budget) = if args.thorough() { (400000, Duration::from_secs(150)) } else { (30000, Duration::from_secs(8)) };
         let t_race = Instant::now();
@@ -996,8 +1216,24 @@ fn main() {
                 run_case(&mut out, &c, idx, &mut rng);
             }
         }
+        let n_multi = if args.thorough() { 6000 } else { 400 };
+        let multi_until = Instant::now() + if args.thorough() { Duration::from_secs(300) } else { Duration::from_secs(8) };
+        for _ in 0..n_multi {
+            if out.oracle_failures >= MAX_FAILURES || Instant::now() > multi_until { break; }
+            idx += 1;
+            let c = gen_multi(&mut rng);
+            run_multi(&mut out, &c, idx);
+        }
         for h in trk {
             if let Ok(r) = h.join() { idx += 1; log_trickle(&mut out, r, idx); }
+        }
+        if let Ok(r) = wdog.join() {
+            for (sig, detail, line) in &r.fails { out.oracle_fail(sig, detail, &[line.clone()]); }
+            for (line, obs) in r.lines {
+                idx += 1;
+                out.count("wd.cases");
+                out.case(&line.replace("IDX", &idx.to_string()), &obs.replace("IDX", &idx.to_string()), true);
+            }
         }
     }
     out.finish();
